@@ -452,7 +452,9 @@ Inductive acon :=
 | ANull
 | ALeaf (k : constr)
 | AAnd (a b : acon)
-| AOr (a b : acon).
+| AOr (a b : acon)
+| AAlt (a b : acon).   (* AlternativesConstraint: the constraints carried by the members of a union value;
+                         applied like an OR, but its inverse is again a disjunction *)
 
 Definition from_list (l : list constr) : constr :=
   match l with [c] => c | _ => KAllOf l end.
@@ -463,6 +465,12 @@ Fixpoint apply_acon (a : acon) : list constr :=
   | ALeaf k => [k]
   | AAnd a b => apply_acon a ++ apply_acon b
   | AOr a b =>
+      match apply_acon a, apply_acon b with
+      | [], _ => []
+      | _, [] => []
+      | ga, gb => [KOneOf [from_list ga; from_list gb]]
+      end
+  | AAlt a b =>     (* OrConstraint(self.constraints).apply() *)
       match apply_acon a, apply_acon b with
       | [], _ => []
       | _, [] => []
@@ -487,6 +495,7 @@ Fixpoint invert (a : acon) : acon :=
   | ALeaf k => ALeaf (flip k)
   | AAnd a b => AOr (invert a) (invert b)
   | AOr a b => AAnd (invert a) (invert b)
+  | AAlt a b => AAlt (invert a) (invert b)
   end.
 
 Definition apply_all (ks : list constr) (v : value) : value :=
@@ -541,6 +550,7 @@ Inductive cond :=
 | CMapIs (po : bool)                        (* mapping pattern, part 1: x is a Mapping *)
 | CMapKeys (kps : list (elt * epat))        (* mapping pattern, part 2: keys present and value subpatterns *)
 | CPAnd (a b : cond)                        (* conjunction of the parts of one pattern (in source order) *)
+| CIfExp (flag : bool) (a b : cond)         (* `(a) if f() else (b)`: a union-valued condition; flag = the run-time value of f() *)
 | CAssertInst (c : cls)                     (* the statement assert_is_instance(x, c) went through *)
 | CAssertIs (l : obj)                       (* assert_is(x, l) went through (assert_is_not: CNot) *)
 | CHasAttr (name : N) (b : bool)            (* hasattr(x, "name") (run-time value b) *)
@@ -579,6 +589,7 @@ Fixpoint cond_acon (c : cond) : acon :=
   | CMapIs po => ALeaf (KPred (PIsAssignable [VGen GMapPat] po) true)
   | CMapKeys _ => ANull
   | CPAnd a b => AAnd (cond_acon a) (cond_acon b)
+  | CIfExp _ a b => AAlt (cond_acon a) (cond_acon b)
   | CAssertInst c => ALeaf (KIsInstance c true)
   | CAssertIs l => ALeaf (KIsValue l true)
   | CHasAttr n _ => ALeaf (KAddAnnot n true)
@@ -627,6 +638,7 @@ Fixpoint tested (c : cond) : value :=
   | CMapIs _ => [plain (VGen GMapPat)]
   | CMapKeys _ => []
   | CPAnd a b => tested a ++ tested b
+  | CIfExp _ a b => tested a ++ tested b
   | CAssertInst c => [plain (VTyped c)]
   | CAssertIs l => [plain (VKnown l)]
   | CHasAttr _ _ => []
@@ -684,6 +696,7 @@ Fixpoint holds (c : cond) (o : obj) : option bool :=
       | Some true => holds b o
       | r => r
       end
+  | CIfExp flag a b => if flag then holds a o else holds b o
   | CAssertInst c => Some (isinst o c)
   | CAssertIs l => Some (obj_eqb o l)
   | CHasAttr _ b => Some b
@@ -745,7 +758,7 @@ Definition interp (r : pres) (s : sval) (pattern : list sval) : list sval :=
 Inductive cmpkind := KIs | KIsNot | KEq | KNotEq | KIn | KNotIn.
 Inductive pkind := PKEquals (use_is : bool) | PKIn.
 Inductive wrapkind := WTyped | WSub.
-Inductive ackind := IsAnd | IsOr.
+Inductive ackind := IsAnd | IsOr | IsAlt.
 Inductive eres := EDrop | EValue | ELiteral | EBoolCompl | EEnumCompl.
 Inductive ires := IDrop | IValue | IAcceptable | IEnumCompl.
 
@@ -800,3 +813,48 @@ Definition einterp (r : eres) (s : sval) (l : obj) : list sval :=
   | EBoolCompl => [plain (VKnown (bool_compl l))]
   | EEnumCompl => other_members (class_of l) (enum_size (class_of l)) (fun m => obj_eqb m l)
   end.
+
+(* ------------------------------------------------------------------ *)
+(* stored conditions: FunctionScope._add_single_constraint.  A constraint remembers the definitions
+   of x that were current when its condition was evaluated ([cons]); when the program later branches
+   on the stored result, the constraint is applied to x only if every definition that can reach the
+   branch ([cur]) is one of them — otherwise x may hold an object the condition never saw. *)
+Inductive stale_test := StaleIfSomeNew | StaleIfDisjoint.
+Definition mem_id (d : nat) (l : list nat) : bool := existsb (Nat.eqb d) l.
+Definition stored_applies (t : stale_test) (cur cons : list nat) : bool :=
+  match t with
+  | StaleIfSomeNew => forallb (fun d => mem_id d cons) cur     (* not (current_set - constraint_set) *)
+  | StaleIfDisjoint => existsb (fun d => mem_id d cons) cur    (* not current_set.isdisjoint(constraint_set) *)
+  end.
+Definition model_stale_test : stale_test := StaleIfSomeNew.
+Definition stored_narrow_with (t : stale_test) (cur cons : list nat) (v : value) (c : cond) (pol : bool) : value :=
+  if stored_applies t cur cons then narrow v c pol else v.
+Definition stored_narrow := stored_narrow_with model_stale_test.
+
+(* the is_instance / is_value branches of Constraint.apply_to_value as decision skeletons *)
+Inductive ares := ADrop | AValue | AInner | ANarrowed.
+Definition isinstance_apply_skel (is_any positive is_known kinst is_typed is_synth sub_tc sub_ct promo is_sub sub_typed cinst : bool) : ares :=
+  if is_any then (if positive then ANarrowed else AInner)
+  else if is_known then (if Bool.eqb kinst positive then AValue else ADrop)
+  else if is_typed then
+    (if is_synth then AValue
+     else if positive then (if sub_tc then AValue else if sub_ct || promo then ANarrowed else ADrop)
+     else (if sub_tc then ADrop else AValue))
+  else if is_sub then
+    (if negb sub_typed then AValue else if Bool.eqb cinst positive then AValue else ADrop)
+  else ADrop.
+Definition isvalue_apply_skel (is_any positive is_known same is_typed vinst promo is_sub sub_typed v_is_type t_is_type sub_vt promo_vt : bool) : ares :=
+  if positive then
+    (if is_any then ANarrowed
+     else if is_known then (if same then AValue else ADrop)
+     else if is_typed then (if vinst || promo then ANarrowed else ADrop)
+     else if is_sub then (if sub_typed && v_is_type && t_is_type && (sub_vt || promo_vt) then ANarrowed else ADrop)
+     else ADrop)
+  else if is_known && same then ADrop else AValue.
+Definition ainterp (r : ares) (s : sval) (inner narrowed : sval) : list sval :=
+  match r with ADrop => [] | AValue => [s] | AInner => [inner] | ANarrowed => [narrowed] end.
+Definition is_any_b (b : bval) : bool := match b with VAny => true | _ => false end.
+Definition is_sub_b (b : bval) : bool := match b with VSub _ => true | _ => false end.
+Definition sub_cls (b : bval) : cls := match b with VSub t => t | _ => CObject end.
+Definition is_class_obj (l : obj) : bool := match l with OClass _ => true | _ => false end.
+Definition class_obj (l : obj) : cls := match l with OClass k => k | _ => CObject end.
